@@ -46,6 +46,10 @@ def run(tier):
     # imported units that are ordinary compile units (DWARF 4, 3.1.2 allows both kinds)
     for n in (4, 5):
         allv += D.gen_forests("navcu", n, wd)
+    # imports that lead back (a unit importing itself, two units importing each other): nothing may hang, and a
+    # unit is not inlined into itself
+    for n in ((3, 4) if tier == "quick" else (3, 4, 5)):
+        allv += D.gen_forests("navcyc", n, wd)
     # import chains of any depth: ten units deep (the model is exponential in the depth)
     allv += D.gen_forests("navchain", 20, wd, shards=1)
     badm = [v for v in allv if not v["ok"]["nav"]]
